@@ -553,3 +553,63 @@ Definition net_in_scope (uri : str) : bool :=
   (let '(netloc, _) := span not_delim (skipn 6 (fst (break_at c_space uri))) in
    let '(netloc2, _) := span not_delim (skipn 6 uri) in
    negb (has c_lbr netloc && has c_rbr netloc) && negb (has c_lbr netloc2 && has c_rbr netloc2)).
+
+(* ---------------------------------------------------------------- RadioDriver.scan_selected *)
+(* re.search('^radio://([0-9]+)((/([0-9]+))(/(250K|1M|2M))?)?', link): group 4 = channel, group 6 = rate.
+   No match => AttributeError (None.group); no channel => TypeError (int(None)); both leave the call before any
+   probing.  The link's address field and dongle number are not used: the probes go out on the connected radio
+   with ITS address. *)
+Inductive selres := SelRaise | SelOk (channel rate : Z).
+Definition sel_rate (r : str) : Z :=
+  match r with
+  | c :: r4 =>
+      if Ascii.eqb c c_slash then
+        if startswith (s2l "250K") r4 then 0 else if startswith (s2l "1M") r4 then 1
+        else if startswith (s2l "2M") r4 then 2 else 2
+      else 2
+  | [] => 2
+  end.
+Definition sel_parse (link : str) : selres :=
+  if negb (startswith radio_prefix link) then SelRaise else
+  let '(ds, r1) := span is_digit (skipn 8 link) in
+  if is_nil ds then SelRaise else
+  match r1 with
+  | c :: r2 =>
+      if Ascii.eqb c c_slash then
+        let '(cs, r3) := span is_digit r2 in
+        if is_nil cs then SelRaise
+        else if Nat.ltb max_str_digits (List.length cs) then SelRaise
+        else SelOk (horner 10 (map digit_val cs) 0) (sel_rate r3)
+      else SelRaise
+  | [] => SelRaise
+  end.
+
+(* the (channel, rate) pairs probed for a list of links; None = the call raises *)
+Fixpoint scan_selected_settings (links : list str) : option (list (Z * Z)) :=
+  match links with
+  | [] => Some []
+  | l :: r => match sel_parse l, scan_selected_settings r with
+              | SelOk ch rt, Some t => Some ((ch, rt) :: t)
+              | _, _ => None
+              end
+  end.
+
+(* what scan_selected reports for an answering (channel, rate): with fixes/F20c.patch the address that was probed
+   (the connected link's) is appended when it is not the default, as scan_interface does; sel_uri_head is the
+   unrepaired format *)
+Definition sel_uri_head (ch rt : Z) : str := s2l "radio://0/" ++ dec ch ++ [c_slash] ++ rate_str rt.
+Definition sel_uri (addr : list Z) (ch rt : Z) : str := scan_uri (Some (be_val addr)) ch rt.
+
+(* air = (channel, rate, address) of the Crazyflies that answer; addr = address of the connected link *)
+Definition z3_eqb (a b : Z * Z * list Z) : bool :=
+  let '(c1, r1, a1) := a in let '(c2, r2, a2) := b in (c1 =? c2) && (r1 =? r2) && zlist_eqb a1 a2.
+Definition answers (air : list (Z * Z * list Z)) (addr : list Z) (p : Z * Z) : bool :=
+  existsb (z3_eqb (fst p, snd p, addr)) air.
+Definition scan_selected (air : list (Z * Z * list Z)) (addr : list Z) (links : list str) : option (list str) :=
+  match scan_selected_settings links with
+  | None => None
+  | Some ps => Some (map (fun p => sel_uri addr (fst p) (snd p)) (filter (answers air addr) ps))
+  end.
+
+(* what `x or DR_2MPS` does to a rate: 0 (DR_250KPS) is falsy *)
+Definition falsy_or_2m (r : Z) : Z := if r =? 0 then 2 else r.
